@@ -36,6 +36,9 @@ type PktClosure struct {
 	NextField *types.Var     // field holding the downstream
 	NextSrc   *ssa.Parameter // the Bind parameter stored in NextField at construction
 	Wrapper   *ssa.Function  // the synthetic bound-method wrapper that is converted
+	Owner     *ssa.Function  // function that creates the closure / object (the Bind method or a helper of it)
+	Method    bool           // method form: parameter 0 of Fn is the receiver
+	Obj       *ssa.MakeInterface // object form: the value returned as the chain interface
 }
 
 // hasNext: the closure has a downstream (captured parameter or field of its object).
@@ -51,8 +54,8 @@ func (c *PktClosure) nextSource() *ssa.Parameter {
 
 // ownerFn is the function that creates the closure (the Bind method or a helper of it).
 func (c *PktClosure) ownerFn() *ssa.Function {
-	if c.Conv != nil && c.Wrapper != nil {
-		return c.Conv.Parent()
+	if c.Method && c.Owner != nil {
+		return c.Owner
 	}
 	return c.Fn
 }
@@ -106,8 +109,91 @@ func (p *Prog) PktClosures() (out []*PktClosure, odd []*ssa.ChangeType) {
 				odd = append(odd, ct)
 				return
 			}
-			c := &PktClosure{Fn: fn, Kind: k, Conv: ct}
+			c := &PktClosure{Fn: fn, Kind: k, Conv: ct, Owner: ct.Parent()}
 			c.Next = p.findNext(fn, k)
+			out = append(out, c)
+		})
+	}
+	// objects that implement a chain interface themselves: `return &loggingReader{next: reader, …}` where
+	// (*loggingReader).Read exists — the per-packet function is that method, the downstream the field set from the
+	// Bind parameter
+	seenM := map[*ssa.Function]bool{}
+	objMethods := map[*ssa.Function]bool{} // methods found through object construction (several sites may share one)
+	for _, c := range out {
+		seenM[c.Fn] = true
+	}
+	for _, f := range p.Funcs {
+		instrsOf(f, func(in ssa.Instruction) {
+			mi, ok := in.(*ssa.MakeInterface)
+			if !ok {
+				return
+			}
+			var kind ClosureKind
+			for k, name := range kindIface {
+				if n := p.rootNamed(name); n != nil && types.Identical(mi.Type(), n) {
+					kind = k
+				}
+			}
+			if kind == "" {
+				return
+			}
+			al, ok := p.origin(mi.X).(*ssa.Alloc)
+			if !ok || !al.Heap || al.Parent() != f {
+				return
+			}
+			nt := namedOf(mi.X.Type())
+			if nt == nil || nt.Obj().Pkg() == nil {
+				return
+			}
+			if _, isStruct := nt.Underlying().(*types.Struct); !isStruct {
+				return
+			}
+			want := "Write"
+			if !kind.isWriter() {
+				want = "Read"
+			}
+			method := p.MethodOf(nt, want)
+			if method == nil || method.Blocks == nil || !p.InUniverse(method) {
+				return
+			}
+			if seenM[method] && !objMethods[method] {
+				return // already known as a converted literal / method value
+			}
+			c := &PktClosure{Fn: method, Kind: kind, NextRecv: method.Params[0], Owner: f, Method: true}
+			switch kind {
+			case RTPWriter:
+				if len(method.Params) < 3 {
+					return
+				}
+				c.Pkt = method.Params[1:3]
+			default:
+				if len(method.Params) < 2 {
+					return
+				}
+				c.Pkt = method.Params[1:2]
+			}
+			iface := p.rootNamed(kindIface[kind])
+			for _, st := range p.storesInto(al) {
+				fa, ok := st.Addr.(*ssa.FieldAddr)
+				if !ok || !types.Identical(st.Val.Type(), iface) {
+					continue
+				}
+				par, ok := p.origin(st.Val).(*ssa.Parameter)
+				if !ok {
+					continue
+				}
+				fv := fieldOfAddr(fa)
+				if !p.constructionOnlyField(fv) {
+					continue
+				}
+				c.NextField, c.NextSrc = fv, par
+			}
+			if c.NextField == nil {
+				return // not a wrapper of a Bind argument (a pacer, a mock …): other rules cover those
+			}
+			seenM[method] = true
+			objMethods[method] = true
+			c.Obj = mi
 			out = append(out, c)
 		})
 	}
@@ -167,6 +253,18 @@ func (p *Prog) paramCell(par *ssa.Parameter) *ssa.Alloc {
 // If the cell is reassigned anywhere (writer = wrap(writer)), the answer is false and callers treat calls through it
 // as not-identity.
 func (p *Prog) isNextValue(c *PktClosure, v ssa.Value) bool {
+	// the downstream handed on under another (narrower) interface type
+	for i := 0; i < 3; i++ {
+		switch x := v.(type) {
+		case *ssa.ChangeInterface:
+			v = x.X
+			continue
+		case *ssa.MakeInterface:
+			v = x.X
+			continue
+		}
+		break
+	}
 	if c.NextField != nil {
 		u, ok := p.origin(v).(*ssa.UnOp)
 		if !ok || u.Op != token.MUL {
@@ -194,7 +292,7 @@ func (p *Prog) methodValueClosure(mc *ssa.MakeClosure, wrapper *ssa.Function, k 
 	if method == nil || method.Blocks == nil || !p.InUniverse(method) || method.Signature.Recv() == nil || len(method.Params) == 0 {
 		return nil
 	}
-	c := &PktClosure{Fn: method, Kind: k, Conv: ct, Wrapper: wrapper, NextRecv: method.Params[0]}
+	c := &PktClosure{Fn: method, Kind: k, Conv: ct, Wrapper: wrapper, NextRecv: method.Params[0], Owner: ct.Parent(), Method: true}
 	switch k {
 	case RTPWriter:
 		if len(method.Params) < 3 {
@@ -223,8 +321,8 @@ func (p *Prog) methodValueClosure(mc *ssa.MakeClosure, wrapper *ssa.Function, k 
 			continue
 		}
 		fv := fieldOfAddr(fa)
-		// the field is written once, at construction
-		if len(p.storesToField(fv)) != 1 {
+		// the field is only written at construction
+		if !p.constructionOnlyField(fv) {
 			continue
 		}
 		c.NextField, c.NextSrc = fv, par
@@ -283,4 +381,30 @@ func (p *Prog) MethodOf(n *types.Named, name string) *ssa.Function {
 		}
 	}
 	return nil
+}
+
+// closureKey is the obligation key of a per-packet function: the literal's own key, or for the method/object form
+// "<function that builds the object>→<method>", so that selectors and known findings that name the interceptor keep
+// matching when a closure is turned into a small type.
+func closureKey(c *PktClosure) string {
+	if c.Method && c.Owner != nil {
+		return funcKey(c.Owner) + "→" + funcKey(c.Fn)
+	}
+	return funcKey(c.Fn)
+}
+
+// constructionOnlyField: every store to the field goes into an object allocated in the storing function (a composite
+// literal or a constructor filling a fresh object): the field never changes after the object is built.
+func (p *Prog) constructionOnlyField(fv *types.Var) bool {
+	sts := p.storesToField(fv)
+	if len(sts) == 0 {
+		return false
+	}
+	for _, st := range sts {
+		al, ok := p.origin(addrRoot(st.Addr)).(*ssa.Alloc)
+		if !ok || al.Parent() != st.Parent() {
+			return false
+		}
+	}
+	return true
 }
